@@ -531,6 +531,9 @@ def sched_programs(rng, n_random, big):
         ("cancel + interrupt", [A(5, b"A")], [("s", 1, 5), ("c", 1), ("i",)]),
         ("two readers, compaction", [A(3, b"A"), A(5, b"B")], [("s", 1, 3), ("s", 2, 5), ("d", 3), ("d", 5), A(8, b"C")]),
         ("deleted x, evicted cache", [A(2, b"A"), A(4, b"B")], [("g", 2), ("s", 1, 2), ("e", 2), ("d", 2), ("d", 4), A(6, b"C")]),
+        # a reader parked at the tip while several Adds complete before it runs again (seeded/C08-m4)
+        ("reader at the tip, two Adds before it runs", [A(5, b"A")], [("s", 1, 5), A(6, b"B"), A(7, b"C")]),
+        ("reader newer than the tip, three Adds", [A(2, b"A")], [("s", 1, 3), A(3, b"B"), A(4, b"C"), A(6, b"D")]),
     ]
     for _ in range(n_random):
         keys, hi, prefix = {0}, 0, []
